@@ -743,7 +743,7 @@ func TestCheck(t *testing.T) {
 	r := vf.Start("C20", "model_checking")
 	heights := vf.Pick(r, 3, 4)
 	maxTx := 3
-	maxTotal := vf.Pick(r, 4, 6)
+	maxTotal := vf.Pick(r, 4, 5)
 	depth := vf.Pick(r, 6, 8)
 	deadline := vf.Pick(r, 50*time.Second, 17*time.Minute)
 	limits := []uint64{1, 2, 3, 5, 8, 0}
